@@ -1124,3 +1124,130 @@ func checkExportedWrapperAlwaysRunsWorker(c *Ctx, rule string) {
 	}
 	c.Floor(rule, "exported store methods with a same-named worker", n, 2)
 }
+
+// checkDetachedBlockRecordIsTheWalkedOne: the rollback deletes, after the walk, the block records of the blocks it
+// detached. The heights it deletes are the heights of the records the walk visited (the iterator's element) — the
+// rollback's own target height names only the lowest of them: with it, a rollback over several blocks leaves the records
+// of the higher blocks behind (transactions listed in a block that is gone; the next balance pass reads them and fails).
+func checkDetachedBlockRecordIsTheWalkedOne(c *Ctx, rule string) {
+	p := c.P
+	n := 0
+	for _, fn := range wtxRegion(c, rule, []string{"rollback"}) {
+		for _, call := range callsNamed(fn, "deleteBlockRecord") {
+			if len(call.Call.Args) < 2 {
+				continue
+			}
+			n++
+			// the height: an element of a slice filled during the walk, or the element's height itself
+			fromElem, fromParam := false, false
+			var visit func(v ssa.Value, depth int)
+			visit = func(v ssa.Value, depth int) {
+				if depth > 4 {
+					return
+				}
+				for _, o := range (&Slicer{P: p, ThroughRange: true, ThroughDeref: true}).Origins(v) {
+					switch x := o.(type) {
+					case *ssa.Parameter:
+						fromParam = true
+					case *ssa.Call:
+						if bi, ok := x.Call.Value.(*ssa.Builtin); ok && bi.Name() == "append" {
+							for _, e := range appendedElems(x) {
+								visit(e, depth+1)
+							}
+							if len(x.Call.Args) > 0 {
+								visit(x.Call.Args[0], depth+1)
+							}
+						}
+					default:
+						if _, f, _, ok := fieldOf(o); ok && f == "Height" {
+							fromElem = true
+						}
+						// an element of a slice (range over it): what the slice was filled with
+						if u, ok := o.(*ssa.UnOp); ok {
+							if ia, ok := u.X.(*ssa.IndexAddr); ok {
+								visit(ia.X, depth+1)
+							}
+						}
+					}
+				}
+			}
+			visit(call.Call.Args[1], 0)
+			c.Check(rule, "detached-block-record-is-the-walked-one:"+fn.Name(), call.Pos(), fromElem && !fromParam,
+				fnName(fn)+" deletes block records by a height that is not (only) the height of the records its walk visited: a rollback over several blocks leaves the higher blocks' records behind, still listing transactions that are unconfirmed again")
+		}
+	}
+	c.Floor(rule, "block record deletions of the rollback", n, 1)
+}
+
+// checkStoreStateIsResetByRollback: the store answers from the database. Any field of Store that is written after the
+// store was opened is derived state (a cache, a high-water mark), and chain data it was derived from changes under a
+// rollback: such a field is also written (reset, invalidated) inside the rollback. A read-through cache of block times
+// that the rollback does not touch reports the old block's time for a transaction that confirmed again in another block.
+func checkStoreStateIsResetByRollback(c *Ctx, rule string) {
+	p := c.P
+	writes := map[string][]*ssa.Function{}
+	for _, fn := range p.FuncsIn("wtxmgr") {
+		top := outermost(fn)
+		if top.Name() == "Open" || top.Name() == "Create" || top.Name() == "newStore" {
+			continue
+		}
+		for _, b := range fn.Blocks {
+			for _, ins := range b.Instrs {
+				var addr ssa.Value
+				switch x := ins.(type) {
+				case *ssa.Store:
+					addr = x.Addr
+				case *ssa.MapUpdate:
+					if u, ok := stripConv(x.Map).(*ssa.UnOp); ok {
+						addr = u.X
+					}
+				}
+				fa, ok := addr.(*ssa.FieldAddr)
+				if !ok {
+					continue
+				}
+				if tn, f := fieldAddrName(fa); tn == "Store" {
+					writes[f] = append(writes[f], top)
+				}
+			}
+		}
+	}
+	inRollback := map[*ssa.Function]bool{}
+	for _, fn := range wtxRegion(c, rule, []string{"rollback", "Rollback"}) {
+		for _, f := range Closures(fn) {
+			inRollback[outermost(f)] = true
+		}
+	}
+	for f, tops := range writes {
+		reset := false
+		for _, t := range tops {
+			if inRollback[t] {
+				reset = true
+			}
+		}
+		c.Check(rule, "store-state-reset-by-rollback:"+f, tops[0].Pos(), reset,
+			"Store."+f+" is written while the store is in use ("+fnName(tops[0])+") but never inside the rollback: what it caches about blocks that are disconnected survives the reorganisation")
+	}
+	c.Note("%s: %d Store fields written after open", rule, len(writes))
+}
+
+// checkRecordSerialisationKeepsWitness: the bytes a transaction record stores are what is offered to the backend again
+// after a restart. They are the full serialisation: nothing in the store serialises a transaction without its witness.
+func checkRecordSerialisationKeepsWitness(c *Ctx, rule string) {
+	p := c.P
+	n := 0
+	for _, fn := range p.FuncsIn("wtxmgr") {
+		for _, ci := range callsOf(fn) {
+			name := calleeShort(ci.Common())
+			if name == "Serialize" || name == "SerializeNoWitness" || name == "BtcEncode" {
+				if g := ci.Common().StaticCallee(); g == nil || recvName(g) != "MsgTx" {
+					continue
+				}
+				n++
+				c.Check(rule, "record-serialisation-keeps-witness:"+fn.Name(), ci.Pos(), name == "Serialize",
+					fnName(fn)+" serialises a transaction with "+name+": the stored bytes lose the signatures of segwit inputs, the re-broadcast after a restart offers an unsigned transaction, the backend rejects it and the wallet forgets a payment that sits in the mempool")
+			}
+		}
+	}
+	c.Floor(rule, "transaction serialisations in the store", n, 1)
+}
